@@ -269,6 +269,9 @@ and parse_zoo (name : string) (toks : string list) : rval * string list =
     | "H" -> RStruct [sfield "a" false "a" (nth 0); sfield "b" false "b" (nth 1); sfield "c" false "c" (nth 2);
                       sfield "d" false "d" (nth 3);
                       sfield "e" false "e" (match nth 4 with RStr (_, s) -> RStr (SNamed, s) | x -> x)]
+    | "L1" -> RStruct [sfield "x" false "a" (nth 0); sfield "Y" true "b" (nth 1)]
+    | "L2" -> RStruct [sfield "P" true "" (nth 0); sfield "Q" true "" (nth 1); sfield "R" true "" (nth 2);
+                       sfield "Y" true "b" (nth 3); sfield "x" false "a" (nth 4)]
     | _ -> failwith ("unknown zoo type " ^ name)) in
   (v, rest)
 
